@@ -35,6 +35,8 @@ func init() {
 			"on the planning side a field's name and alias are taken from the same operation field wherever a response field is built, the duplicate check uses the same (name, alias) identity as the construction, fragment fields are de-duplicated by the response key, and the merge path of resolver / @requires calls ends in the response key; every call kind is compiled, and a call is merged by path exactly when its plan carries a response path; " +
 			"the code reachable from DataSource.Load never stores into plan-owned memory (no assignment through plan pointers, no append onto a slice that aliases the plan), so concurrent requests on one cached plan cannot change each other's shape; both consumers of the plan test the list wrapper before the optional-scalar wrapper (a nullable scalar list satisfies both predicates). It does not decide the value-level equality of responses under reformulation.",
 		Mutants: []Mutant{
+			{Name: "a composite field's definition is looked up by the alias (positive control of the response-name taint rule)", File: "v2/pkg/engine/datasource/grpc_datasource/execution_plan.go", Rule: "C20-R14", Key: "schema-lookup-by-schema-name:fieldDefinitionRefForType",
+				Old: "fieldDefRef := r.fieldDefinitionRefForType(r.operation.FieldNameString(fieldRef), fragmentSelection.typeName)", New: "fieldDefRef := r.fieldDefinitionRefForType(r.operation.FieldAliasOrNameString(fieldRef), fragmentSelection.typeName)"},
 			{Name: "field resolver context read without a kind test (reverts the F48 fix)", File: "v2/pkg/engine/datasource/grpc_datasource/execution_plan.go", Rule: "C20-R12", Key: "rpcPlanningContext.getFieldsFromFieldResolverDirective/partial-value-accessor-under-kind-test",
 				Old: "\tif val.Kind != ast.ValueKindString {\n\t\treturn nil, fmt.Errorf(\"context directive argument must be a string, got %s\", val.Kind)\n\t}\n", New: ""},
 			{Name: "root fields leave without popping the field path (seeded change C20-21)", File: "v2/pkg/engine/datasource/grpc_datasource/execution_plan_visitor.go", Rule: "C20-R11", Key: "rpcPlanVisitor.LeaveField/pops-field-path-once",
@@ -111,6 +113,9 @@ func runC20(r *fw.Run) {
 		r.Rule("C20-R13", "in the gRPC planner and compiler the ref of an ast.Value is handed to an accessor of kind K only where the value's kind is known to be K")
 		nKR := kindRefAgreement(r, "C20-R13", []string{"grpcds"}, nil)
 		r.Note("C20-R13: %d kind-specific uses of a value's ref in grpc_datasource", nKR)
+		r.Rule("C20-R14", "in the gRPC planner a response name (alias or name) never reaches a lookup keyed by the schema-side field name")
+		nRN := responseNamesNeverReachSchemaLookups(r, "C20-R14", []string{"grpcds"})
+		r.Expect("C20-R14", "schema-side field name arguments in grpc_datasource", nRN, 1)
 	}()
 	r.Rule("C20-R10", "in every gRPC planner visitor a node is looked up only in the document it came from: a definition node (Walker.EnclosingTypeDefinition, TypeDefinitions, a lookup in the definition) is never handed to a method of the operation document, nor the other way round")
 	documentProvenance(r, "C20-R10", []string{"grpcds"}, 11)
